@@ -113,7 +113,7 @@ pub fn check_rules(model: &mut Model, r: &mut Report, modelled: &[String], progr
     let block0 = match exec::parse(code) {
         Ok(b) => b,
         Err(_) => {
-            r.hist("skipped", "parse");
+            r.hist("skipped", &format!("parse ({})", program.origin));
             r.case(None::<u8>);
             return;
         }
